@@ -45,16 +45,18 @@ class Source(Module):
 
 
 PAGES = {("pa", None): 1, ("pb", None): 3, ("pb", "buf"): 2}
+# with a 16-bit CSR address there are pages above 31 (the default 14-bit bus has 32 pages of 0x800 bytes): two banks up there
+PAGES_HI = {("pa", None): 1, ("pb", None): 35, ("pb", "buf"): 34}
 
 
 class ArrayDUT(Module):
-    def __init__(self, bw, ordering, paging):
+    def __init__(self, bw, ordering, paging, aw=14, pages=PAGES):
         self.submodules.src = src = Source(bw)
 
         def address_map(name, memory):
-            return PAGES.get((name, None if memory is None else memory.name_override))
-        self.submodules.array = arr = csr_bus.CSRBankArray(src, address_map, data_width=bw, address_width=14, paging=paging, ordering=ordering)
-        self.m = [csr_bus.Interface(data_width=bw, address_width=14) for _ in range(2)]
+            return pages.get((name, None if memory is None else memory.name_override))
+        self.submodules.array = arr = csr_bus.CSRBankArray(src, address_map, data_width=bw, address_width=aw, paging=paging, ordering=ordering)
+        self.m = [csr_bus.Interface(data_width=bw, address_width=aw) for _ in range(2)]
         self.submodules.ic = csr_bus.InterconnectShared(self.m, arr.get_buses())
 
 
@@ -67,12 +69,13 @@ class CsrArrayHarness(Harness):
     conf_first = 60
     conf_every = 101
 
-    def __init__(self, name, bw=8, ordering="big", paging=0x400):
+    def __init__(self, name, bw=8, ordering="big", paging=0x400, aw=14, hi=False):
         self.name, self.bw, self.ordering, self.paging = name, bw, ordering, paging
+        self.aw, self.PAGES = aw, (PAGES_HI if hi else PAGES)
         self.cov = set()
 
     def build(self):
-        self.dut = ArrayDUT(self.bw, self.ordering, self.paging)
+        self.dut = ArrayDUT(self.bw, self.ordering, self.paging, self.aw, self.PAGES)
         return self.dut
 
     def bind(self, D):
@@ -81,6 +84,7 @@ class CsrArrayHarness(Harness):
         page = self.paging//4
         pa, pb = d.src.pa, d.src.pb
         # reference layout: (page, [(register, size, reset)] in creation order)
+        PAGES = self.PAGES
         layout = [(PAGES[("pa", None)], [(pa.zreg, bw, 0x5A & ((1 << bw) - 1)), (pa.areg, bw + 1, 0), (pa.stat, bw, None)]),
                   (PAGES[("pb", None)], [(pb.sub.inner, 4, 0x9)])]
         self.words = {}          # bus address -> ("st", storage index, lo, hi) | ("ro", lo, hi) | ("mem", word)
@@ -99,7 +103,8 @@ class CsrArrayHarness(Harness):
             self.words.setdefault(a, None)                   # first word past the bank: selected page, nothing there
         for w in range(2):
             self.words[PAGES[("pb", "buf")]*page + w] = ("mem", w)
-        for extra in (0, 4*page, PAGES[("pa", None)]*page + page - 1):
+        alias = [(PAGES[k] - 32)*page for k in (("pb", None), ("pb", "buf")) if PAGES[k] >= 32]       # same page modulo 32: must stay unmapped
+        for extra in [0, 4*page, PAGES[("pa", None)]*page + page - 1] + alias:
             self.words.setdefault(extra, None)               # unmapped pages / far end of a mapped page
         self.status = D.i(pa.stat.status)
         self.adrs = sorted(self.words)
@@ -176,6 +181,7 @@ ARRAYS = {
     "bankarray[bus8,big,paging=0x400] 2 objects + nested + memory, 2 masters": ("quick", dict(bw=8, ordering="big", paging=0x400)),
     "bankarray[bus8,little,paging=0x800] 2 objects + nested + memory, 2 masters": ("quick", dict(bw=8, ordering="little", paging=0x800)),
     "bankarray[bus32,big,paging=0x800] 2 objects + nested + memory, 2 masters": ("thorough", dict(bw=32, ordering="big", paging=0x800)),
+    "bankarray[bus8,big,paging=0x800,16-bit address,banks at pages 34/35] 2 objects + nested + memory, 2 masters": ("quick", dict(bw=8, ordering="big", paging=0x800, aw=16, hi=True)),
 }
 
 
